@@ -63,5 +63,8 @@ PrimCases == [i \in 1..8 |-> [kind |-> "prim", blocks |-> (i + 1) \div 2,
 
 LenCases == [n \in 1..41 |-> [kind |-> "length", len |-> n - 1, valid |-> Def!ValidLen(n - 1)]]
 
-ASSUME ndJsonSerialize(IOEnv.VERIF_OUT, Cases \o PrimCases \o LenCases)
+\* the message-level wrapper: zero padding up to the next multiple of 16, none when the message is aligned
+MsgWrapCases == [n \in 1..(MaxPayload + 32) |-> [kind |-> "msgwrap", len |-> n, pad |-> Def!Pad16(n)]]
+
+ASSUME ndJsonSerialize(IOEnv.VERIF_OUT, Cases \o PrimCases \o LenCases \o MsgWrapCases)
 =============================================================================
